@@ -42,6 +42,11 @@ class RerunConverges(FlowBase):
                 "join_barrier_not_met": "rerun_started_unrequested_work"}.get(e.kind, e.kind)
         sig = dict(e.sig)
         sig["default_request"] = not g["rr"]["requested_explicit"]
+        # causal feature of F31: one explicit request names a join together with a task upstream of it
+        names = g["rr"].get("raw") or []
+        sig["request_names_join_and_upstream_task"] = any(
+            self.ref.d.is_join(j) and any(u != j and j in self._reach(u) for u in names) for j in names)
+        sig["reruns"] = min(sim.h["reruns"], 2)
         return [{"kind": kind, "sig": sig, "detail": e.detail}]
 
     def check_completion(self, g, info, pre, post, sim, res):
@@ -87,7 +92,8 @@ class RerunConverges(FlowBase):
                 keep.append([t, lin])
         items = any(t in self._items for t, _ in keep) or bool(self._items)
         sticky = bool(g.get("rr") and g["rr"].get("handled_requested"))
-        g["rr"] = {"requested": keep, "requested_explicit": bool(reqs), "items": items, "handled_requested": sticky}
+        g["rr"] = {"requested": keep, "requested_explicit": bool(reqs), "items": items, "handled_requested": sticky,
+                   "raw": sorted({r[0] for r in reqs})}
         if pre["status"] == st.CANCELED:
             # the quantifier covers failed terminal histories; for a canceled one only stuck-freedom,
             # exceptions and the inadmissible-request probes are judged
@@ -137,7 +143,7 @@ class RerunConverges(FlowBase):
         for k, a in g["arr"].items():
             jt = k.split("|", 1)[0]
             jl = json.loads(k.split("|", 1)[1])
-            if jt in self._reach(t) and jl[: len(lin)] == lin:
+            if self._downstream([jt, jl], [t, lin]):  # same branch of the same run (not a sibling route)
                 a["fired"] = 0
                 a["pending"] = False
                 a["from"] = [x for x in a["from"] if x[0] != t and x[0] not in self._reach(t)]
